@@ -67,8 +67,8 @@ def main():
     }
     out = os.path.join(HERE, 'MANIFEST.json')
     json.dump(man, open(out, 'w'), indent=1)
-    import jsonschema
-    jsonschema.validate(man, json.load(open('/root/.vp/MANIFEST.schema.json')))
+    subprocess.run(['python3-vt', '-c', 'import json,jsonschema,sys; jsonschema.validate(json.load(open(sys.argv[1])), '
+                    'json.load(open("/root/.vp/MANIFEST.schema.json")))', out], check=True)
     print(f'MANIFEST.json: {len(checks)} checks, {len(na)} not_applicable; valid')
 
 
